@@ -83,6 +83,21 @@ fn analyse(h: &Harness, out: &SchedOut) -> Analysis {
             }
         }
     }
+    // consuming reads of the set-up (sequential, before the threads start) = reader 98
+    for (j, op) in h.setup.iter().enumerate() {
+        if !is_consuming(op) {
+            continue;
+        }
+        match out.setup_results.get(j) {
+            Some(Res::One(e)) => reads.push((98, 0, 0, vec![e.clone()], false)),
+            Some(Res::Many(v)) => reads.push((98, 0, 0, v.clone(), false)),
+            Some(Res::None) => {}
+            other => {
+                an.violation = Some(("harness".into(), format!("set-up read {} -> {:?}", op.short(), other)));
+                return an;
+            }
+        }
+    }
     let end = usize::MAX / 2;
     reads.push((99, end, end + 1, out.final_drain.clone(), false));
     // (1) exactly once, nothing foreign, nothing of a rejected append
@@ -205,6 +220,9 @@ pub fn harnesses(thorough: bool) -> Vec<Harness> {
         ("tail2", vec![ap(130), ap(131)]),
         ("sealed+tail", vec![ap(h), ap(h), ap(132)]),
         ("tail-nearly-full", vec![ap(h), ap(600)]),
+        // both entries were consumed through the tail path, then the writer rotated: the
+        // consumers' remembered tail position names the sealed block, the new block holds one entry
+        ("rotated-after-tail-reads", vec![ap(h), ap(600), rn.clone(), rn.clone(), ap(h)]),
     ];
     let menus: Vec<(&'static str, Vec<Vec<Op>>)> = vec![
         ("P|C", vec![vec![ap(140)], vec![rn.clone()]]),
@@ -240,7 +258,7 @@ pub fn harnesses(thorough: bool) -> Vec<Harness> {
             ("Prot|PB|C", vec![vec![ap(h)], vec![Op::Batch { t: 0, lens: vec![151, 152] }], vec![rn.clone(), rn.clone()]]),
         ]);
     }
-    for (sn, setup) in setups.iter().skip(if thorough { 0 } else { 1 }).take(if thorough { 3 } else { 1 }) {
+    for (sn, setup) in setups.iter().skip(if thorough { 0 } else { 1 }).take(if thorough { 4 } else { 1 }) {
         for (mn, threads) in three.iter() {
             out.push(Harness { name: Box::leak(format!("{}/{}", sn, mn).into_boxed_str()), setup: setup.clone(), threads: threads.clone() });
         }
